@@ -215,7 +215,10 @@ def register_classifier(name):
 
 def classify(prop, mismatches):
     """Splits mismatches into (violations, {finding_id: [mismatch,...]})."""
-    known = [k for k in load_known().get("findings", []) if k.get("property") == prop and k.get("status", "open") == "open"]
+    def applies(k):
+        pr = k.get("property")
+        return prop in pr if isinstance(pr, list) else pr == prop
+    known = [k for k in load_known().get("findings", []) if applies(k) and k.get("status", "open") == "open"]
     viol, hits = [], {}
     for m in mismatches:
         hit = None
@@ -391,6 +394,31 @@ def make_prop(prop, stages, rule, assumptions, level="model_checking"):
                 pass
         return rc
     return run
+
+
+def grammar_stage(ev, prop, mode, checks, tier, seed, timeout=3000):
+    """Grammar machine (generator + mutations), every exported sentence labelled by the recogniser and replayed."""
+    cases = os.path.join(WORK, f"{prop}-grammar-{mode}-{os.getpid()}.cases")
+    env = {"VERIF_GRAMMAR": mode, "VERIF_TIER": tier, "VERIF_SEED": str(seed)}
+    r = run_tlc("Grammar", env=env, cases_path=cases, timeout=timeout)
+    if r.nreplay == 0:
+        raise ToolError(f"grammar mode {mode} produced no sentences (vacuous)")
+    ev.add_tlc(f"Grammar[{mode}]", r, "invariants GenSound GenSoundNeg SpellingSame RoundTrip (generator vs recogniser JPParse)")
+    mism, summary = run_replay("replay", ["--checks", checks], cases)
+    ev.traces += summary["cases"]
+    ev.evaluations += summary["cases"]
+    ev.distinct_nontrivial += summary["distinct"]
+    ev.extra.setdefault("per_check_cases", {}).update(summary.get("checks", {}))
+    with open(cases) as f:
+        for i, line in enumerate(f):
+            if i % max(1, summary["cases"] // 4) == 0 and len(ev.samples) < 8:
+                c = json.loads(line)
+                ev.samples.append({"sentence": "".join(map(chr, c["q"])), "kind": c["kind"], "recogniser_verdict": c["verdict"]})
+    return mism, cases
+
+
+def GS(prop, mode, checks):
+    return lambda ev, tier, seed: grammar_stage(ev, prop, mode, checks, tier, seed)
 
 
 def ES(prop, universe, checks, label=None):
